@@ -146,6 +146,12 @@ def scenario(params, ch):
             # queued in the same frame behind other messages: the guaranteed message is the LAST of the datagram
             app_send(w, mon, sender, payload(2, 25), "none")
             app_send(w, mon, sender, payload(4, 23), "best")
+        if isinstance(other, str) and other.startswith("raising-neighbour"):
+            # an application callback that misbehaves: a best-effort (or unretried) message queued FIRST in the same frame
+            # has a callback that raises when told False / whenever called; it shares every datagram with the guaranteed one
+            nb_mode, nb_retry = {"raising-neighbour": (False, "best"), "raising-neighbour-always": ("always", "best"), "raising-neighbour-none": (False, "none")}[other]
+            w.cb_raise["nb"] = nb_mode
+            app_send(w, mon, sender, payload(5, 21), nb_retry, tag="nb")
         big = None
         if other == "behind-transfer":
             # a long guaranteed transfer is queued first; the message under test is sent in the same frame and has to wait its turn
@@ -165,6 +171,8 @@ def scenario(params, ch):
             e2 = app_send(w, mon, sender, second, "retry", tag="g2", api=method)
             if e2 is not None:
                 ch.flag("send-raises", "%s raises %s" % (api, type(e2).__name__), repr(e2))
+        elif isinstance(other, str) and other.startswith("raising-neighbour"):
+            pass
         elif other in ("last-in-datagram", "first-in-datagram"):
             if other == "first-in-datagram":
                 app_send(w, mon, sender, payload(2, 25), "none")
@@ -418,6 +426,14 @@ def params_list(tier):
         for size in (0, 1, 2, 40, caps(1500)[0] - 30):
             for pos in ("last-in-datagram", "first-in-datagram"):
                 out.append((api, size, 1500, ("drop",), None, pos, "cs", 1, 4))
+    # a datagram-mate whose application callback raises, outages around and beyond the message timeout
+    for api in APIS:
+        for size in ((40, 2500) if tier == "quick" else (0, 40, caps(1500)[0] - 40, 2500)):
+            for nb in ("raising-neighbour", "raising-neighbour-always", "raising-neighbour-none"):
+                for b in (None, ("both", 0, 77), ("both", 0, 160), ("data", 0, 160)):
+                    if tier == "quick" and (nb != "raising-neighbour" and (b is None or b[0] == "data")):
+                        continue
+                    out.append((api, size, 1500, ("drop",), b, nb, "cs", 1, 8))
     # part "loss": representative sizes, richer fates, blackouts, other traffic
     reps = [(1500, 40), (1500, 1434), (1500, 2500), (512, 700), (1500, 3200)]
     fates = ("drop", "dup", "delay8", "delay70")
